@@ -162,6 +162,42 @@ def type_sweep_fails():
     return out
 
 
+def narrow_dtype_fails(rng):
+    """per-key statistics of NumPy scalars of narrow and unsigned dtypes (values of any real numeric type): each key reports the
+    statistic of its zero-filled series of NUMBERS, whatever their dtype (no wrap-around in the type of an earlier value)"""
+    import numpy as np
+    from ixai.utils.tracker import MultiValueTracker, WelfordTracker, ExponentialSmoothingTracker
+    for name, conv in (("np.uint8", np.uint8), ("np.uint16", np.uint16), ("np.int8", np.int8)):
+        for rep in range(6):
+            keys = ["a", "b", "c"]
+            hist = []
+            for t in range(rng.randint(2, 5)):
+                ks = [k for k in keys if rng.random() < 0.7] or ["a"]
+                hist.append({k: rng.randint(0, 120) for k in ks})
+            if rep == 0:
+                hist = [{"a": 120, "b": 7}, {"a": 10}, {"a": 3, "c": 100}, {"c": 1}]   # large first value, smaller later ones, omitted keys
+            for label, mk in (("welford", lambda: WelfordTracker()), ("es, alpha=1/2", lambda: ExponentialSmoothingTracker(0.5))):
+                mv = MultiValueTracker(mk())
+                series = {}
+                try:
+                    with np.errstate(all="ignore"):
+                        for upd in hist:
+                            mv.update({k: conv(v) for k, v in upd.items()})
+                            for k in upd:
+                                series.setdefault(k, [])
+                            for k in series:
+                                series[k].append(upd.get(k, 0))
+                        got = {k: float(v) for k, v in mv.get().items()}
+                except Exception as ex:
+                    return name, label, hist, f"raised {core.err_kind(ex)}: {ex}"
+                for k, vs in series.items():
+                    n = len(vs)
+                    want = sum(vs) / n if label == "welford" else sum(0.5 * 0.5 ** (n - 1 - i) * v for i, v in enumerate(vs))
+                    if k not in got or not abs(got[k] - want) <= 1e-9 * max(1.0, abs(want)):
+                        return name, label, hist, f"key {k!r} reports {got.get(k)} but its zero-filled series {vs} has {want}"
+    return None
+
+
 def run(tier="quick", seed=0, replay=None):
     chk = core.Check("C12", tier, seed, "proof")
     chk.rule = ("update-dict histories of length 1..8 over 4 key sets (str, int, float/mixed, tuple/mixed) with random subsets per "
@@ -245,6 +281,11 @@ def run(tier="quick", seed=0, replay=None):
         chk.violation("zero-sum:" + name, f"MultiValueTracker({base}) with {name} values {vals}: normalised view is {norm}, not all zeros",
                       {"type": name, "base": base, "values": vals})
     chk.stat("type_sweep_cases", 36)
+    nd = narrow_dtype_fails(chk.rng)
+    if nd:
+        chk.violation("narrow-dtype:" + nd[0], f"MultiValueTracker({nd[1]}) with {nd[0]} values, updates {nd[2]}: {nd[3]}",
+                      {"type": nd[0], "base": nd[1], "updates": nd[2]})
+    chk.stat("narrow_dtype_histories", 36)
     _cv.__exit__(None, None, None)
     cover.gate(chk, _cv, only_functions=['MultiValueTracker'])
     chk.exhaustive = False
